@@ -260,9 +260,10 @@ func runC07(c *Ctx, r *Rec) {
 		}
 	}
 	// ---- D5 depth balance
+	steppers7 := depthSteppers(c, info, cr.ms, cr.depthF)
 	for _, name := range sortedKeys(cr.ms) {
 		fd := cr.ms[name]
-		touches := false
+		touches := len(steppers7) > 0
 		ast.Inspect(fd.Body, func(x ast.Node) bool {
 			if s, ok := x.(*ast.IncDecStmt); ok && selectorField(info, s.X) == cr.depthF {
 				touches = true
@@ -272,7 +273,11 @@ func runC07(c *Ctx, r *Rec) {
 		if !touches {
 			continue
 		}
-		bad := depthBalance(c, info, fd, cr.depthF)
+		if _, isStepper := steppers7[c.funcOf(fd).Origin()]; isStepper {
+			r.ok("D5-depth-balanced", c.fdName(fd), c.pos(fd.Pos()), "a helper that only steps the counter by a fixed amount: accounted for in its callers")
+			continue
+		}
+		_, bad := depthBalanceWith(c, info, fd, cr.depthF, steppers7, 0)
 		r.check(bad == "", "D5-depth-balanced", c.fdName(fd), c.pos(fd.Pos()), "every normal exit and every loop back edge is reached with a net depth change of zero", bad)
 	}
 	r.floor("D5-depth-balanced", 1)
@@ -406,6 +411,55 @@ func (m *mirror) mirrorEq(e1, e2 ast.Expr) bool {
 // ---------------------------------------------------------------- depth balance
 
 func depthBalance(c *Ctx, info *types.Info, fd *ast.FuncDecl, depthF *types.Var) string {
+	_, bad := depthBalanceWith(c, info, fd, depthF, nil, 0)
+	return bad
+}
+
+// depthSteppers: unexported methods that step the counter by a fixed amount and do nothing else
+// with it (openBlock: depth++ ... ; closeBlock: depth-- ...): their callers are analysed with
+// the call counted as that step, they themselves are expected to end off-balance.
+func depthSteppers(c *Ctx, info *types.Info, ms map[string]*ast.FuncDecl, depthF *types.Var) map[*types.Func]int {
+	out := map[*types.Func]int{}
+	for name, fd := range ms {
+		if ast.IsExported(name) || fd.Body == nil {
+			continue
+		}
+		recursive := false
+		ast.Inspect(fd.Body, func(x ast.Node) bool {
+			if call, ok := x.(*ast.CallExpr); ok {
+				if cf := calleeOf(info, call); cf != nil && ms[cf.Name()] != nil && recvNamed(cf) != nil {
+					// calls that can lead back into the traversal disqualify the helper
+					if d := ms[cf.Name()]; d != nil && d != fd {
+						touches := false
+						ast.Inspect(d.Body, func(y ast.Node) bool {
+							if s, ok := y.(*ast.IncDecStmt); ok && selectorField(info, s.X) == depthF {
+								touches = true
+							}
+							return true
+						})
+						if touches {
+							recursive = true
+						}
+					}
+				}
+			}
+			return true
+		})
+		if recursive {
+			continue
+		}
+		if net, bad := depthBalanceWith(c, info, fd, depthF, nil, 99); bad == "" && net != 0 {
+			if fn := c.funcOf(fd); fn != nil {
+				out[fn.Origin()] = net
+			}
+		}
+	}
+	return out
+}
+
+// depthBalanceWith: the net change of the counter at the normal exits (all exits must agree).
+// steppers: calls counted as steps.  wantNet 99 means "any consistent value".
+func depthBalanceWith(c *Ctx, info *types.Info, fd *ast.FuncDecl, depthF *types.Var, steppers map[*types.Func]int, wantNet int) (int, string) {
 	g := newFG(info, fd.Body)
 	const unknown = -1000
 	in := map[*cfg.Block]int{}
@@ -420,9 +474,21 @@ func depthBalance(c *Ctx, info *types.Info, fd *ast.FuncDecl, depthF *types.Var)
 			}
 			return -1
 		}
-		return 0
+		d := 0
+		if len(steppers) > 0 {
+			inspectNoLit(n, func(x ast.Node) bool {
+				if call, ok := x.(*ast.CallExpr); ok {
+					if cf := calleeOf(info, call); cf != nil {
+						d += steppers[cf.Origin()]
+					}
+				}
+				return true
+			})
+		}
+		return d
 	}
 	bad := ""
+	net, haveNet := 0, false
 	for iter := 0; iter < 20 && bad == ""; iter++ {
 		changed := false
 		for _, b := range g.order {
@@ -434,12 +500,18 @@ func depthBalance(c *Ctx, info *types.Info, fd *ast.FuncDecl, depthF *types.Var)
 				cur += delta(n)
 			}
 			if len(b.Succs) == 0 {
-				if g.exitKind(b) == exitReturn && cur != 0 {
+				if g.exitKind(b) == exitReturn {
 					pos := c.pos(fd.End())
 					if len(b.Nodes) > 0 {
 						pos = c.pos(b.Nodes[len(b.Nodes)-1].Pos())
 					}
-					bad = fmt.Sprintf("the exit at %s is reached with the depth counter changed by %+d: later traversals start off-balance (spurious depth-limit panics or an ineffective limit)", pos, cur)
+					switch {
+					case wantNet != 99 && cur != wantNet:
+						bad = fmt.Sprintf("the exit at %s is reached with the depth counter changed by %+d: later traversals start off-balance (spurious depth-limit panics or an ineffective limit)", pos, cur)
+					case haveNet && cur != net:
+						bad = fmt.Sprintf("the exits of the function leave the depth counter changed by different amounts (%+d and %+d)", net, cur)
+					}
+					net, haveNet = cur, true
 				}
 				continue
 			}
@@ -460,7 +532,7 @@ func depthBalance(c *Ctx, info *types.Info, fd *ast.FuncDecl, depthF *types.Var)
 			break
 		}
 	}
-	return bad
+	return net, bad
 }
 
 // loopEntryNode returns a CFG-visible node of a loop statement (init, condition or ranged expression).
